@@ -291,7 +291,7 @@ func runC08(c *Ctx) {
 	r := c.R
 	r.Assume("the prepared cache is far from its capacity (a handful of statements), so every id prepared through the proxy is in it")
 	r.Assume("the fake backend, like Cassandra, compresses every non-empty response body once compression was negotiated, ERROR frames included, and rejects frames whose version differs from the connection's")
-	r.Require("unprepared_handled", "executes_ok", "fresh_prepare_executes", "pipelined_reprepare_cases")
+	r.Require("unprepared_handled", "executes_ok", "fresh_prepare_executes", "pipelined_reprepare_cases", "odd_statement_cases")
 	_ = model.Rows
 	if c.Replay != nil && c.Replay["kind"] == "c08-pipelined-reprepare-lost" {
 		c08PipelinedReprepareLost(c, int(c.Replay["idx"].(float64)))
@@ -369,6 +369,11 @@ func runC08(c *Ctx) {
 	for i := 0; i < c.Pick(16, 2000); i++ {
 		if c.Mine(i) {
 			c08PipelinedReprepareLost(c, i)
+		}
+	}
+	for i := 0; i < c.Pick(32, 600); i++ {
+		if c.Mine(i) {
+			c08OddStatements(c, i)
 		}
 	}
 	var _ = rawcql.Plain
@@ -554,4 +559,69 @@ func c08PipelinedReprepareLost(c *Ctx, idx int) {
 	if atomic.LoadInt32(&preparesSeen) > 0 {
 		r.NonTrivial(key)
 	}
+}
+
+// c08OddStatements: statements of kinds the proxy does not classify (TRUNCATE, DDL, GRANT, LIST ...), lightweight
+// transactions, counter updates and a USE-free batch: PREPAREd through the proxy they are in its prepared cache like any
+// other, so their EXECUTE succeeds on every host - hosts that forgot them included - and is never answered UNPREPARED.
+func c08OddStatements(c *Ctx, idx int) {
+	r := c.R
+	stmts := []string{"TRUNCATE ks1.t", "TRUNCATE TABLE ks1.t", "CREATE TABLE IF NOT EXISTS ks1.t2 (k text PRIMARY KEY)", "ALTER TABLE ks1.t WITH comment = ?", "DROP TABLE IF EXISTS ks1.t3",
+		"GRANT SELECT ON ks1.t TO role1", "LIST ROLES", "CREATE INDEX IF NOT EXISTS ON ks1.t (v)", "UPDATE ks1.t SET c = c + 1 WHERE k = ?", "UPDATE ks1.t SET v = ? WHERE k = ? IF v = ?",
+		"INSERT INTO ks1.t (k, v) VALUES (?, now())", "DELETE FROM ks1.t WHERE k = ? IF EXISTS", "SELECT JSON * FROM ks1.t WHERE k = ?", "BEGIN BATCH INSERT INTO ks1.t (k) VALUES (?) APPLY BATCH",
+		"  select * from ks1.t where k = ?", "/* hint */ SELECT * FROM ks1.t WHERE k = ?"}
+	stmt := stmts[idx%len(stmts)]
+	hosts := 2 + (idx/len(stmts))%2
+	comp := []string{"", "lz4", "snappy"}[(idx/3)%3]
+	key := fmt.Sprintf("odd-statement/%q/h%d/%s", stmt, hosts, comp)
+	scenario := map[string]interface{}{"kind": "c08-odd-statement", "idx": idx}
+	c.Step("c08 %s", key)
+	bed, err := px.NewBed(px.BedConfig{Hosts: hosts, NumConns: 1, Keyspaces: []string{"ks1"}, KeepBodies: true})
+	if err != nil {
+		r.Inconc("c08: cannot start bed: " + err.Error())
+		return
+	}
+	defer bed.Close()
+	bed.OnHook(nil)
+	cl, err := bed.ReadyClient(primitive.ProtocolVersion4, comp)
+	if err != nil {
+		r.Inconc("c08: handshake: " + err.Error())
+		return
+	}
+	defer cl.Close()
+	pf, err := cl.Call(1, &message.Prepare{Query: stmt}, 10*time.Second)
+	if err != nil {
+		r.Inconc("c08: PREPARE got no reply")
+		return
+	}
+	pri := DecodeReply(comp, pf)
+	if pri.Kind != "Prepared" {
+		r.Obs("odd_statement_prepare_refused:"+pri.Kind, 1) // the backend's (or the proxy's) business; nothing to execute then
+		return
+	}
+	id, _ := hex.DecodeString(pri.PrepID)
+	for _, h := range bed.Cluster.Hosts {
+		h.Forget()
+	}
+	for i := 0; i < 2*hosts+1; i++ {
+		tok := NewTok()
+		ex := &message.Execute{QueryId: id, Options: &message.QueryOptions{Consistency: primitive.ConsistencyLevelOne, PositionalValues: []*primitive.Value{primitive.NewValue([]byte(tok))}}}
+		f, err := cl.Call(int16(10+i), ex, 10*time.Second)
+		r.Eval(1)
+		if err != nil || f == nil {
+			r.Violate(mon.Violation{Signature: "C08/no-reply/odd-statement", Detail: key + ": EXECUTE got no reply", Scenario: scenario})
+			return
+		}
+		ri := DecodeReply(comp, f)
+		switch {
+		case ri.ErrCode == primitive.ErrorCodeUnprepared:
+			r.Violate(mon.Violation{Signature: "C08/unprepared-reached-client/odd-statement", Detail: fmt.Sprintf("%s: the statement was PREPAREd through the proxy a moment ago; EXECUTE #%d of the returned id was answered UNPREPARED (%q)", key, i, ri.ErrMsg), Scenario: scenario})
+			return
+		case strings.HasPrefix(ri.Kind, "Error:"):
+			r.Violate(mon.Violation{Signature: "C08/execute-failed/odd-statement/" + ri.Kind, Detail: fmt.Sprintf("%s: EXECUTE #%d answered %s %q although every host can re-prepare and execute it", key, i, ri.Kind, ri.ErrMsg), Scenario: scenario})
+			return
+		}
+	}
+	r.Obs("odd_statement_cases", 1)
+	r.NonTrivial(key)
 }
